@@ -14,8 +14,8 @@ variable {τ σ : Type} [Num τ]
 def mkInterrupt (s : KState τ σ) (p : EvId) (cause : Val) : KState τ σ × Option Exc :=
   if s.triggered p then (s, some (runtimeErr "terminated")) else
   if s.active == some p then (s, some (runtimeErr "self")) else
-  let (s, iv) := s.newEv { kind := .intr p, cbs := none, out := some (.fail ⟨"Interrupt", [cause]⟩), defused := true }
-  let s := s.setEv iv { s.ev iv with cbs := some [.intr iv] }
+  let iv := s.events.size
+  let s := (s.newEv { kind := .intr p, cbs := some [.intr iv], out := some (.fail ⟨"Interrupt", [cause]⟩), defused := true }).1
   (s.schedule iv URGENT Num.zero, none)
 
 /-! ## Resources (`onl/sim/resources`) -/
@@ -50,10 +50,9 @@ def preemptStep (s : KState τ σ) (r : ResId) (e : EvId) : KState τ σ :=
     | none => s
     | some w =>
       if keyLt rq (reqOf s w) then
-        let s := s.setRes r { rr with users := rr.users.erase w }
         match (reqOf s w).proc with
-        | some vp => (mkInterrupt s vp (.preempted rq.proc w r)).1
-        | none => s
+        | some vp => (mkInterrupt (s.setUsers r (rr.users.erase w)) vp (.preempted rq.proc w r)).1
+        | none => s.setUsers r (rr.users.erase w)
       else s
   else s
 
@@ -82,12 +81,9 @@ def applyPut (s : KState τ σ) (r : ResId) (e : EvId) : KState τ σ :=
   let rr := s.res r
   let rq := reqOf s e
   match rr.kind with
-  | .resource | .priority | .preemptive =>
-    let s := s.setRes r { rr with users := rr.users ++ [e] }
-    let s := s.setEv e { s.ev e with req := some { rq with usageSince := some s.now } }
-    s.trigger e (.ok .none)
-  | .container => (s.setRes r { rr with level := rr.level + rq.amount }).trigger e (.ok .none)
-  | .store | .pstore | .fstore => (s.setRes r { rr with items := rr.items ++ [rq.item] }).trigger e (.ok .none)
+  | .resource | .priority | .preemptive => ((s.setUsers r (rr.users ++ [e])).setUsage e).trigger e (.ok .none)
+  | .container => (s.setLevel r (rr.level + rq.amount)).trigger e (.ok .none)
+  | .store | .pstore | .fstore => (s.setItems r (rr.items ++ [rq.item])).trigger e (.ok .none)
 
 /-- `_do_put` of the resource classes. Returns the new state and the `proceed` flag. -/
 def doPut (s : KState τ σ) (r : ResId) (e : EvId) : KState τ σ × Bool :=
@@ -119,31 +115,27 @@ def getItem (s : KState τ σ) (r : ResId) (e : EvId) : Option Val :=
   | .pstore => (listMin rr.items).map Val.int
   | .fstore => (rr.items.find? (filterOk (reqOf s e).filter)).map Val.int
 
-/-- the resource record after serving get request `e` with value `v` -/
-def takeOut (s : KState τ σ) (r : ResId) (e : EvId) (v : Val) : ResRec :=
+/-- the state after handing `v` to get request `e` (before the request event is triggered) -/
+def takeOut (s : KState τ σ) (r : ResId) (e : EvId) (v : Val) : KState τ σ :=
   let rr := s.res r
   match rr.kind with
-  | .resource | .priority | .preemptive => { rr with users := rr.users.erase (reqOf s e).releaseOf }
-  | .container => { rr with level := rr.level - (reqOf s e).amount }
-  | .store => { rr with items := rr.items.tail }
+  | .resource | .priority | .preemptive => s.setUsers r (rr.users.erase (reqOf s e).releaseOf)
+  | .container => s.setLevel r (rr.level - (reqOf s e).amount)
+  | .store => s.setItems r rr.items.tail
   | .pstore | .fstore =>
     match v with
-    | .int x => { rr with items := rr.items.erase x }
-    | _ => rr
+    | .int x => s.setItems r (rr.items.erase x)
+    | _ => s
 
 /-- `_do_get` of the resource classes; a `FilterStore` never stops the scan -/
 def doGet (s : KState τ σ) (r : ResId) (e : EvId) : KState τ σ × Bool :=
   match getItem s r e with
-  | some v => ((s.setRes r (takeOut s r e v)).trigger e (.ok v), true)
+  | some v => ((takeOut s r e v).trigger e (.ok v), true)
   | none => (s, (s.res r).kind == .fstore)
 
-def dropPutQ (s : KState τ σ) (r : ResId) (e : EvId) : KState τ σ :=
-  let rr := s.res r
-  s.setRes r { rr with putQ := rr.putQ.erase e }
+def dropPutQ (s : KState τ σ) (r : ResId) (e : EvId) : KState τ σ := s.setPutQ r ((s.res r).putQ.erase e)
 
-def dropGetQ (s : KState τ σ) (r : ResId) (e : EvId) : KState τ σ :=
-  let rr := s.res r
-  s.setRes r { rr with getQ := rr.getQ.erase e }
+def dropGetQ (s : KState τ σ) (r : ResId) (e : EvId) : KState τ σ := s.setGetQ r ((s.res r).getQ.erase e)
 
 /-- `BaseResource._trigger_put`: walk the queue in order; a granted request leaves the queue;
 stop at the first request whose `_do_put` says "do not proceed". `q` is the queue as it was when
@@ -166,23 +158,30 @@ def triggerPut (s : KState τ σ) (r : ResId) : KState τ σ := scanPut r (s.res
 def triggerGet (s : KState τ σ) (r : ResId) : KState τ σ := scanGet r (s.res r).getQ s
 
 def isPrioKind (k : ResKind) : Bool := k == .priority || k == .preemptive
+/-- kinds whose `put` is a `Request` -/
+def isResKind (k : ResKind) : Bool := k == .resource || k == .priority || k == .preemptive
+def isStoreKind (k : ResKind) : Bool := k == .store || k == .pstore || k == .fstore
+/-- calling a method the resource class does not have -/
+def attrErr : Exc := ⟨"AttributeError", []⟩
+
+/-- `put_queue.append(request)` (a `SortedQueue` for the two priority classes) -/
+def enqPut (s : KState τ σ) (r : ResId) (e : EvId) : KState τ σ :=
+  s.setPutQ r (if isPrioKind (s.res r).kind then insertSorted s e (s.res r).putQ else (s.res r).putQ ++ [e])
+
+/-- `get_queue.append(request)` -/
+def enqGet (s : KState τ σ) (r : ResId) (e : EvId) : KState τ σ := s.setGetQ r ((s.res r).getQ ++ [e])
 
 /-- `Put.__init__`: create the request, enqueue it, subscribe `_trigger_get`, scan -/
 def mkPut (s : KState τ σ) (r : ResId) (rq : ReqData τ) : KState τ σ × EvId :=
-  let (s, e) := s.newLabelled { kind := .put r, cbs := some [], out := none, req := some rq }
-  let rr := s.res r
-  let q := if isPrioKind rr.kind then insertSorted s e rr.putQ else rr.putQ ++ [e]
-  let s := s.setRes r { rr with putQ := q }
-  let s := s.addCb e (.trigGet r)
-  (triggerPut s r, e)
+  let e := s.events.size
+  let s := (s.newLabelled { kind := .put r, cbs := some [.trigGet r], out := none, req := some rq }).1
+  (triggerPut (enqPut s r e) r, e)
 
 /-- `Get.__init__` -/
 def mkGet (s : KState τ σ) (r : ResId) (rq : ReqData τ) : KState τ σ × EvId :=
-  let (s, e) := s.newLabelled { kind := .get r, cbs := some [], out := none, req := some rq }
-  let rr := s.res r
-  let s := s.setRes r { rr with getQ := rr.getQ ++ [e] }
-  let s := s.addCb e (.trigPut r)
-  (triggerGet s r, e)
+  let e := s.events.size
+  let s := (s.newLabelled { kind := .get r, cbs := some [.trigPut r], out := none, req := some rq }).1
+  (triggerGet (enqGet s r e) r, e)
 
 /-- `Put.cancel` / `Get.cancel` (with the rescan) -/
 def cancelReq (s : KState τ σ) (e : EvId) : KState τ σ × Option Exc :=
@@ -215,17 +214,16 @@ def evaluate (all : Bool) (nOps count : Nat) : Bool :=
 /-- `Condition._check(event)` -/
 def condCheck (s : KState τ σ) (c e : EvId) : KState τ σ :=
   if s.triggered c then s else
-  let cr := s.ev c
-  let s := s.setEv c { cr with count := cr.count + 1 }
-  let (all, ops) := condOps s c
   match (s.ev e).out with
-  | some (.fail x) => (s.setEv e { s.ev e with defused := true }).trigger c (.fail x)
-  | _ => if evaluate all ops.length (cr.count + 1) then s.trigger c (.ok .none) else s
+  | some (.fail x) => ((s.bumpCount c).defuse e).trigger c (.fail x)
+  | _ =>
+    if evaluate (condOps s c).1 (condOps s c).2.length ((s.ev c).count + 1) then (s.bumpCount c).trigger c (.ok .none)
+    else s.bumpCount c
 
 /-- remove one `_check` of condition `c` from the callbacks of `e`, if it is there -/
 def eraseCheck (s : KState τ σ) (c e : EvId) : KState τ σ :=
   match (s.ev e).cbs with
-  | some l => if l.contains (.check c) then s.setEv e { s.ev e with cbs := some (l.erase (.check c)) } else s
+  | some l => if l.contains (.check c) then s.eraseCb e (.check c) else s
   | none => s
 
 /-- `Condition._remove_check_callbacks` (fuel bounds the nesting depth) -/
@@ -247,7 +245,7 @@ def populate : Nat → KState τ σ → EvId → List EvId
 def condBuild (s : KState τ σ) (c : EvId) : KState τ σ :=
   let s := removeChecks (c + 1) c s
   match (s.ev c).out with
-  | some (.ok _) => s.setEv c { s.ev c with out := some (.ok (.cv (populate (c + 1) s c))) }
+  | some (.ok _) => s.setOut c (.ok (.cv (populate (c + 1) s c)))
   | _ => s
 
 /-- `Condition.__init__` -/
@@ -291,9 +289,11 @@ def doCall (s : KState τ σ) (self : EvId) : Call τ σ → KState τ σ × Rep
     let (s, c) := mkCond s all ops
     (s, .ev c)
   | .request r prio preempt =>
+    if !isResKind (s.res r).kind then (s, .err attrErr) else
     let (s, e) := mkPut s r { res := r, prio, preempt, time := s.now, proc := s.active }
     (s, .ev e)
   | .release r req =>
+    if !isResKind (s.res r).kind then (s, .err attrErr) else
     let (s, e) := mkGet s r { res := r, time := s.now, proc := s.active, releaseOf := req }
     (s, .ev e)
   | .cancel e =>
@@ -301,17 +301,21 @@ def doCall (s : KState τ σ) (self : EvId) : Call τ σ → KState τ σ × Rep
     | (s, none) => (s, .unit)
     | (s, some x) => (s, .err x)
   | .cput r amount =>
+    if (s.res r).kind != .container then (s, .err attrErr) else
     if amount ≤ 0 then (s, .err (valueErr "amount must be > 0")) else
     let (s, e) := mkPut s r { res := r, amount, time := s.now, proc := s.active }
     (s, .ev e)
   | .cget r amount =>
+    if (s.res r).kind != .container then (s, .err attrErr) else
     if amount ≤ 0 then (s, .err (valueErr "amount must be > 0")) else
     let (s, e) := mkGet s r { res := r, amount, time := s.now, proc := s.active }
     (s, .ev e)
   | .sput r item =>
+    if !isStoreKind (s.res r).kind then (s, .err attrErr) else
     let (s, e) := mkPut s r { res := r, item, time := s.now, proc := s.active }
     (s, .ev e)
   | .sget r filter =>
+    if !isStoreKind (s.res r).kind then (s, .err attrErr) else
     let (s, e) := mkGet s r { res := r, filter, time := s.now, proc := s.active }
     (s, .ev e)
   | .log what v => (s.emit (.log self what (freezeVal s v) s.now), .unit)
